@@ -681,7 +681,12 @@ impl NodeRecordStore {
         // Store the new record to the cache
         self.records_cache.push_back(key.clone(), r.clone());
 
-        self.prune_records_if_needed(key)?;
+        if let Err(err) = self.prune_records_if_needed(key) {
+            // A refused record must not linger in the cache: it would be served by `get` and a
+            // repeated put of the same record would hit the early return above and report `Ok`.
+            self.records_cache.remove(key);
+            return Err(err);
+        }
 
         let filename = Self::generate_filename(key);
         let file_path = self.config.storage_dir.join(&filename);
